@@ -16,6 +16,7 @@ from adeu.ingest import extract_text_from_stream
 from adeu.markup import apply_edits_to_markdown
 from adeu.models import DocumentEdit
 from adeu.redline.engine import RedlineEngine
+from adeu.utils.files import write_atomically
 
 
 def _get_claude_config_path() -> Path:
@@ -126,8 +127,7 @@ def _load_edits_from_json(path: Path) -> List[DocumentEdit]:
 def handle_extract(args):
     text = _read_docx_text(args.input)
     if args.output:
-        with open(args.output, "w", encoding="utf-8") as f:
-            f.write(text)
+        write_atomically(args.output, text.encode("utf-8"))
         print(f"Extracted text to {args.output}", file=sys.stderr)
     else:
         print(text)
@@ -185,8 +185,8 @@ def handle_apply(args):
         else:
             output_path = args.original.with_name(f"{args.original.stem}_redlined.docx")
 
-    with open(output_path, "wb") as f:
-        f.write(engine.save_to_stream().getvalue())
+    # The result exists in full before the output (possibly the source itself) is touched.
+    write_atomically(output_path, engine.save_to_stream().getvalue())
 
     print(f"✅ Saved to {output_path}", file=sys.stderr)
     print(f"Stats: {applied} applied, {skipped} skipped.", file=sys.stderr)
@@ -231,8 +231,7 @@ def handle_markup(args):
             output_path = args.input.with_name(f"{args.input.stem}_markup.md")
 
     # 5. Save result
-    with open(output_path, "w", encoding="utf-8") as f:
-        f.write(result)
+    write_atomically(output_path, result.encode("utf-8"))
 
     print(f"✅ Saved CriticMarkup to {output_path}", file=sys.stderr)
     print(f"Stats: {len(edits)} edits processed.", file=sys.stderr)
